@@ -64,7 +64,7 @@ extern size_t mpt_stream_read(MPT_STRUCT(stream) *stream, size_t count, void *da
 				len = part * curr;
 			}
 			if (!data) {
-				if (!mpt_queue_crop(queue, 0, len)) {
+				if (mpt_queue_crop(queue, 0, len) < 0) {
 				    break;
 				}
 			}
